@@ -241,10 +241,12 @@ def function(ex, frame, e, name, hint, want_seq):
         raise E.PyRaise(StopIteration)
     if name == 'memoryview' and len(A) == 1:
         return ev(A[0])
-    if name == 'bytes' and len(A) == 1:
+    if name in ('bytes', 'bytearray') and len(A) == 1:
         v = ev(A[0])
         if isinstance(v, VList):
             return v
+    if name in ('bytes', 'bytearray') and len(A) == 0:
+        return ex.bytes_const(b'')
     return NOPE
 
 
@@ -397,6 +399,14 @@ def method(ex, frame, e, base, meth, hint):
             return VNone()
         if meth == 'copy':
             return VList(base.n, base.arr, base.elem)
+        if meth in ('startswith', 'endswith') and len(A) == 1:
+            needle = ev(A[0])
+            nn = z3.simplify(needle.n) if isinstance(needle, VList) else None
+            if nn is None or not z3.is_int_value(nn):
+                raise Unsupported(f'bytes.{meth} of a needle of symbolic length')
+            m = nn.as_long()
+            off = z3.IntVal(0) if meth == 'startswith' else base.n - m
+            return VBool(z3.And(base.n >= m, *[z3.Select(base.arr, off + j) == z3.Select(needle.arr, j) for j in range(m)]))
         if meth == 'find' and getattr(base, 'is_bytes', False) or meth == 'find':
             needle = ev(A[0])
             nn = z3.simplify(needle.n) if isinstance(needle, VList) else None
